@@ -933,11 +933,18 @@ class Engine:
                         return [(st, v[3][0][1])]
                     ev('panic_site', what='unwrap(None)')
                     return [(st, PANIC)]
-                if not self.assume_variant(st, v, 'Some', True, OPTION):
-                    ev('panic_site', what='unwrap(None)')
-                    return [(st, PANIC)]
-                ev('unwrap', val=v)
-                return [(st, self.project(v, (('dc', 'Some'), '0')))]
+                outs = []
+                st_none = st.copy()
+                if self.assume_variant(st_none, v, 'None', True, OPTION):
+                    eid = st_none.eid()
+                    st_none.events.append({'k': 'panic', 'callee': path, 'name': name, 'what': 'unwrap(None)',
+                                           'val': v, 'msg': args[1] if len(args) > 1 else None, 'eid': eid,
+                                           'fn': fn['path'], 'ln': t['ln'], 'frame': frame})
+                    outs.append((st_none, PANIC))
+                if self.assume_variant(st, v, 'Some', True, OPTION):
+                    ev('unwrap', val=v)
+                    outs.append((st, self.project(v, (('dc', 'Some'), '0'))))
+                return outs
             if name in ('is_none', 'is_some'):
                 v = self.read(st, self.deref(args[0]))
                 want = 'None' if name == 'is_none' else 'Some'
